@@ -130,13 +130,13 @@ def _translate(bounded, mc=3, ml=4):
     log = []
     rel = "include/parmcb/detail/approx_spanner.hpp"
     text = X.src(rel)
-    loop = X.stmt_after(text, r"exact_mcb_algo\(_spanner, spanner_weight_map, std::back_inserter\(spanner_cycles\)\);", r"\bfor\s*\(",
+    loop = X.stmt_after(text, r"exact_mcb_algo\(\s*_spanner,\s*spanner_weight_map,\s*std::back_inserter\(spanner_cycles\)\);", r"\bfor\s*\(",
                         "translation loop of run()")
     loop = X.rewrite(loop, [
         (r"for \(const auto &spanner_cycle : spanner_cycles\)", "for (size_t cyc = 0; cyc < vp_nc; cyc++)", 1, "container-api", "range-for over the list of cycles"),
         (r"std::list<Edge> cycle_edgelist;", "size_t vp_len = 0;", 1, "container-api", "std::list -> row OUT[cyc][..] + length"),
         (r"for \(const auto &spanner_e : spanner_cycle\)", "for (size_t pos = 0; pos < CLEN[cyc]; pos++)", 1, "container-api", "range-for over the edges of one cycle"),
-        (r"Edge e = _edge_spanner_to_g\.at\(spanner_e\);", "size_t spanner_e = CYC[cyc][pos]; size_t e = TR[spanner_e];", 1, "container-api", "std::map::at (key present: K17a)"),
+        (r"(?:const )?Edge e = _edge_spanner_to_g\.at\(spanner_e\);", "size_t spanner_e = CYC[cyc][pos]; size_t e = TR[spanner_e];", 1, "container-api", "std::map::at (key present: K17a)"),
         (r"cycle_edgelist\.push_back\(e\);", "OUT[cyc][vp_len++] = e;", 1, "container-api", ""),
         (r"boost::get\(_weight_map, (\w+)\)", r"WT[\1]", (0, 3), "container-api", "the CALLER's weight map"),
         (r"boost::get\(spanner_weight_map, (\w+)\)", r"SPW[\1]", (0, 3), "container-api", "the spanner's weight map"),
@@ -219,6 +219,7 @@ def _k0():
         (r"\b_k\b", "vp_k", (0, 3), "type-binding", "member _k (std::size_t)"),
         (r"#ifdef PARMCB_INVARIANTS_CHECK\s*check_edge_length_preconditions\(\);\s*#endif", "", (0, 1), "drop", "weight sanity check (no output)"),
         (r"EdgeWeightMapType spanner_weight_map = get\(boost::edge_weight,\s*_spanner\);", "", (0, 1), "drop", "property map handle"),
+        (r"std::list<std::list<Edge>> spanner_cycles;", "", (0, 1), "drop", "declaration of the (still empty) list of spanner cycles"),
     ], log)
     fn = r"""
 #include <stddef.h>
